@@ -7,6 +7,7 @@ CONSTANTS
   MaxOps = 4
   MaxDeletes = 1
   Coords = {"A"}
+  MaxRestores = 0
   GetDs = {}
 INVARIANTS Raw_SameEpochSame
 VIEW MCView
